@@ -188,7 +188,8 @@ fn exec_iter<S: Tbl>(ctx: &mut Ctx, ev: &Ev) {
     }
     // the position model is used as a guard only (stop at the first disagreement with it, probe `next()` before a
     // step on an exhausted sequence): the verdict of this check is the comparison of the two iterators
-    let expect = ip::expect_at(ip::Pos::new(n, &ev.tabs[0]), &script);
+    let mut expect = ip::expect_at(ip::Pos::new(n, &ev.tabs[0]), &script);
+    expect.terminal_on_exhausted = n <= 4;
     let rs = guard(|| strip(S::t_iter_script(n, start_s.as_ref(), &script, Some(&expect))));
     let rd = guard(|| strip(<Lut as Tbl>::t_iter_script(n, start_d.as_ref(), &script, Some(&expect))));
     let same = match (&rs, &rd) {
